@@ -260,7 +260,7 @@ def observe(cfg, want):
                 [P.constantSourceTerm(P.CellVariable(c.m, gam_big))]
         P.solvePDE(v, terms)
         cond = float(s1["cond"])
-        tol_c = max(lift.TOL, 1e-13 * cond)
-        q_c = min(lift.QMAX, int((0.5 / tol_c) ** 0.5))
+        tol_c = max(lift.TOL, 2e-14 * cond)
+        q_c = max(64, min(lift.QMAX, int((1e-6 / (0.61 * tol_c)) ** 0.5)))
         obs["B"]["r_solve"] = lift.lift_array(np.asarray(v._value), tol=tol_c, qmax=q_c)[0]
     return obs
